@@ -61,7 +61,8 @@ Example D7_known_refuted : let s := run_doc "xhtml" 0 ".Im i.png cap
 Proof. vm_compute. split; reflexivity. Qed.
 
 (* proved for every document of a sub-language, every world and every positive nesting fuel: text lines, .Bm, .Em and .Sm
-   (any arguments), argument-less .P, and display blocks .Bd/.Ed nested to any depth, XHTML fragment mode.  The output
+   (any arguments), .P with or without a title (inline macros in the title included), and display blocks .Bd/.Ed nested
+   to any depth, XHTML fragment mode.  The output
    is read by the tag machine of Proofs/Tok.v: it ends in character data with no element left open, and no closing tag
    ever mismatched (the machine would be stuck in Bad); the block stack and the inline scopes are closed at end of file;
    unclosed, mismatched or stray .Ed/.Em lines are reported by the model and the output still balances. *)
@@ -88,3 +89,10 @@ Proof. exact Inv.Inv_macro_sm. Qed.
 Theorem C02_P_keeps_invariant : forall pim s, Inv.Inv s -> Inv.markup_ok (mtags s) -> process s = true -> args s = [] ->
   verse s = false -> Proc1.scope_verse s = false -> Inv.Inv (Proc2.macro_p pim s).
 Proof. exact Inv.Inv_macro_p_plain. Qed.
+(* processInlineMacros (titles of .P, and of headers, items, links): the text it hands back is a balanced chunk, and the
+   caller's state is restored up to diagnostics and registers *)
+Require InvI EqF.
+Theorem C02_inline_titles_balanced : forall a s, Exp.fmt s = Exp.FX -> asis s = false -> inl s = false -> Inv.markup_ok (mtags s) -> bf s = None -> has_cur s = true ->
+  (forall stk, Tok.run (fst (pim a s)) (Tok.Txt, stk) = (Tok.Txt, stk)) /\
+  EqF.eqf (snd (pim a s)) s /\ Inv.out (snd (pim a s)) = Inv.out s /\ Inv.view (snd (pim a s)) = Inv.view s /\ buf (snd (pim a s)) = buf s.
+Proof. exact InvI.pim_spec. Qed.
